@@ -1,7 +1,7 @@
 (** C18 — LIST/LSUB wildcard matching follows RFC 3501 and stays polynomial.
     Statements only; every proof is [exact <lemma>]. *)
 From Coq Require Import String Ascii List Bool Arith.
-From Raven Require Import Base.GoStr Model.Pattern Spec.Match Proof.Pattern Proof.PatternFilter.
+From Raven Require Import Base.GoStr Model.Pattern Spec.Match Proof.Pattern Proof.PatternFilter Proof.PatternLsub.
 Import ListNotations.
 
 (** The matcher (model of utils.doWildcardMatch) decides the RFC 3501 relation
@@ -48,6 +48,34 @@ Print Assumptions c18_canon_relative.
 Theorem c18_cost_quadratic : forall p t : str, row_cost p t <= S (length p) * S (length t).
 Proof. exact row_cost_bound. Qed.
 Print Assumptions c18_cost_quadratic.
+
+(** LSUB: besides the subscribed names that match (c18_filter_exact applied to
+    the subscription list), the names answered with \Noselect are exactly the
+    proper ancestors of subscribed names that are not themselves subscribed and
+    match reference+pattern, and only for a pattern containing '%'. *)
+Theorem c18_lsub_implied_exact : forall (subs : list str) (reference pattern n : str),
+  to_upper n <> INBOX ->
+  (In n (lsub_implied subs reference pattern) <->
+   In pct pattern /\ ~ In n subs /\
+   (exists m rest, In m subs /\ m = n ++ delim :: rest) /\
+   Matches (build_canonical_pattern reference pattern) n).
+Proof. exact lsub_implied_exact. Qed.
+Print Assumptions c18_lsub_implied_exact.
+
+Theorem c18_lsub_implied_inbox_variant : forall (subs : list str) (reference pattern n : str),
+  to_upper n = INBOX -> In n (lsub_implied subs reference pattern) ->
+  Matches (to_upper (build_canonical_pattern reference pattern)) INBOX.
+Proof. exact lsub_implied_inbox_variant. Qed.
+Print Assumptions c18_lsub_implied_inbox_variant.
+
+Theorem c18_lsub_no_pct : forall (subs : list str) (reference pattern : str),
+  ~ In pct pattern -> lsub_implied subs reference pattern = [].
+Proof. exact lsub_no_pct. Qed.
+Print Assumptions c18_lsub_no_pct.
+
+Example c18_lsub_example :
+  lsub_names [S_ "Foo/Bar/Baz"; S_ "Foo/Qux"] (S_ "Foo/") (S_ "%") = ([S_ "Foo/Bar"], [S_ "Foo/Qux"]).
+Proof. vm_compute. reflexivity. Qed.
 
 (** non-vacuity: a concrete list meeting the hypothesis of [c18_filter_exact],
     and the adversarial family on which the recursive matcher needed more than
